@@ -604,4 +604,23 @@ def discharge_all(obs, timeout_ms=20000, procs=None):
     for i in todo:
         if res[i] is None:
             res[i] = dict(verdict='unknown', backend='z3', time=0.0, error='no result')
+    # second pass: open (non-canary) obligations once more with a longer budget and little parallelism, so that a verdict
+    # does not flip to `unknown` only because all cores were busy
+    if not _retrying[0]:
+        again = [i for i in todo if res[i]['verdict'] == 'unknown' and obs[i].kind != 'canary' and 'unresponsive' not in res[i].get('error', '')]
+        if again and len(again) <= 40:
+            _retrying[0] = True
+            try:
+                sub = discharge_all([obs[i] for i in again], timeout_ms * 3, procs=4)
+            finally:
+                _retrying[0] = False
+                _OBS = obs
+                _TMO = timeout_ms
+            for i, r in zip(again, sub):
+                if r['verdict'] != 'unknown':
+                    r['backend'] = r['backend'] + ' (2nd pass)'
+                    res[i] = r
     return res
+
+
+_retrying = [False]
